@@ -2,6 +2,7 @@ package ledger
 
 import (
 	"fmt"
+	"github.com/nspcc-dev/neo-go/pkg/crypto/keys"
 	"os"
 	"strings"
 	"sync"
@@ -241,6 +242,8 @@ func (n *Node) open() (err error) {
 	n.BC = bc
 	n.Exec = neotest.NewExecutor(n.tb, bc, validator, committee)
 	n.closed = false
+	// a freshly started process has decoded no public key yet
+	keys.VerifPurgeKeyCache()
 	go bc.Run()
 	sim.Wait()
 	return nil
